@@ -1,6 +1,6 @@
 SPECIFICATION GSpec
 CONSTANTS
-  Colourings = 2
+  Colourings = 1
   Deep = TRUE
 CONSTRAINT Emit
 CHECK_DEADLOCK FALSE
